@@ -142,6 +142,11 @@ def gen_case(rng, stats):
     else:
         other, _ = gen_psum(rng, 2, [], stats)
         term = ("add", [("mul", [rng.choice(FREE), ps]), other])
+    return make_case(term, ps, rng)
+
+
+def make_case(term, ps, rng):
+    """Substitution requests and an environment for a term whose outermost pool sum is `ps`."""
     top_idx = [s for s, _ in ps[2]]
     bound = sorted(bound_syms(term))
     frees = [s for s in FREE]
@@ -171,6 +176,76 @@ def gen_case(rng, stats):
             "depth": depth_of(term), "top_idx": top_idx}
 
 
+def shape_terms():
+    """Rare but legitimate shapes that every run covers (HARDENING rules 1, 5, 8), as real objects:
+    (label, expression, outermost PoolSum)."""
+    import sympy as sp
+
+    from ampform.dynamics.phasespace import BreakupMomentumSquared
+    from ampform.kinematics.phasespace import Kallen
+    from ampform.sympy import PoolSum
+
+    x, y, z = sp.Symbol("x"), sp.Symbol("y", real=True), sp.Symbol("z", positive=True)
+    i, j, k = sp.Symbol("i"), sp.Symbol("j"), sp.Symbol("k", integer=True)
+    f, g = sp.Function("f"), sp.Function("g")
+    half = sp.Rational(1, 2)
+    out = []
+
+    def add(label, expr, ps=None):
+        out.append((label, expr, ps if ps is not None else expr))
+
+    d3 = PoolSum(PoolSum(PoolSum(f(i, j) * x, (i, (1, 2))) * i + g(j), (j, (half, 3))) + i * y, (i, (3, 4)))
+    add("depth 3, innermost sum re-binds the outermost index", d3)
+    add("index symbol of a nested sum also free outside of it", PoolSum(j * PoolSum(f(x, j), (j, (1, 2))) + i, (i, (0, 1))))
+    add("depth 3, nested index free in the middle level",
+        PoolSum(PoolSum(k * PoolSum(f(k, i), (k, (1, 2))) + j, (j, (1, 1))) * i, (i, (2, 3)), (k, (5,))))
+    add("pool of two equal values", PoolSum(f(i) * x + i, (i, (2, 2))))
+    add("pool of three equal rationals", PoolSum(f(i, y), (i, (half, half, half))))
+    add("mixed duplicates", PoolSum(f(i) * i, (i, (1, 2, 2)), (j, (0, 0))))
+    add("singleton re-bound by an inner sum, other singleton free inside",
+        PoolSum(PoolSum(f(i, j), (i, (1, 2))) + i * x, (i, (3,)), (j, (half,))))
+    add("numeric summand", PoolSum(sp.Integer(3), (i, (1, 2))))
+    add("summand is the index, pool with zero", PoolSum(i, (i, (0, 1, -1))))
+    add("ints and rationals mixed in one pool", PoolSum(f(i) + i**2, (i, (1, half, sp.Integer(2), -half))))
+    add("no indices", PoolSum(f(x) + y))
+    add("four indices", PoolSum(f(i, j) * k + z, (i, (1, 2)), (j, (0, 1)), (k, (1,)), (sp.Symbol("l"), (2, 3))))
+    inner = PoolSum(f(i) * x, (i, (1, 2)))
+    add("inside an Add and a Mul", 3 * y * inner + inner**2 + x, inner)
+    add("argument of an unevaluated node without attributes", Kallen(inner, y, 2), inner)
+    add("argument of an unevaluated node with a non-SymPy attribute",
+        BreakupMomentumSquared(z, PoolSum(i * y, (i, (1, 2))), x, name="q"), PoolSum(i * y, (i, (1, 2))))
+    add("unevaluated node inside the summand", PoolSum(Kallen(i, x, y) + BreakupMomentumSquared(z, i, x, name="q"), (i, (1, 2))))
+    return out
+
+
+def shape_cases(rng, ctx, stats):
+    cases = []
+    for label, expr, ps in shape_terms():
+        term = m1.from_sympy(expr, ctx)
+        ps_ast = m1.from_sympy(ps, ctx)
+        c = make_case(term, ps_ast, rng)
+        c["label"] = label
+        c["has_node"] = "node" in m1.show(term)[:0] or _has_node(term)
+        stats.setdefault("shape_corpus", []).append(label)
+        cases.append(c)
+    return cases
+
+
+def _has_node(t) -> bool:
+    k = t[0]
+    if k == "node":
+        return True
+    if k in {"add", "mul"}:
+        return any(_has_node(a) for a in t[1])
+    if k == "pow":
+        return _has_node(t[1])
+    if k in {"app", "idx"}:
+        return any(_has_node(a) for a in t[2])
+    if k == "psum":
+        return _has_node(t[1])
+    return False
+
+
 def pairs_str(pairs) -> str:
     return " ".join(f"({m1.show_sym(s)} {m1.show(a)})" for s, a in pairs)
 
@@ -190,8 +265,8 @@ def correspondence(chk: common.Check, rng, n_cases: int, variant=(0, 1)) -> list
     cases = []
     lines = [f"(variant {variant[0]} {variant[1]})"]
     plan = []  # (case index, op label, real result or exception)
-    for ci in range(n_cases):
-        c = gen_case(rng, stats)
+    todo = shape_cases(rng, ctx, stats) + [gen_case(rng, stats) for _ in range(n_cases)]
+    for ci, c in enumerate(todo):
         stats["depth"][c["depth"]] = stats["depth"].get(c["depth"], 0) + 1
         real = m1.to_sympy(c["term"], ctx)
         canon = m1.from_sympy(real, ctx)
@@ -201,6 +276,8 @@ def correspondence(chk: common.Check, rng, n_cases: int, variant=(0, 1)) -> list
         for op, fn in (("evaluate", _evaluate_all), ("doit", lambda r: r.doit()), ("cleanup", _cleanup_all)):
             if op in {"evaluate", "cleanup"} and canon[0] != "psum":
                 continue
+            if op == "doit" and c.get("has_node"):
+                continue  # the model's doit unfolds pool sums only; nodes are unfolded by C14's model
             lines.append(f"({op} {s})")
             plan.append((ci, op, None, _try(fn, real)))
         lines.append(f"(free {s})")
@@ -247,13 +324,13 @@ def correspondence(chk: common.Check, rng, n_cases: int, variant=(0, 1)) -> list
             continue
         # semantic tie: Lean denotation of the model's result vs exact value of the real unfolded result
         # (a repeated index symbol has no cartesian-product denotation: excluded, counted)
-        if c["dup"]:
+        if c["dup"] or c.get("has_node"):
             continue
         second.append(f"(evalat {line.strip()} {m1.show_env(c['env'])})")
         second_plan.append((rec, c, real_res))
     # denotation of the original folded term as well
     for c in cases:
-        if c["dup"]:
+        if c["dup"] or c.get("has_node"):
             continue
         second.append(f"(evalat {m1.show(c['canon'])} {m1.show_env(c['env'])})")
         second_plan.append(({"op": "denotation", "term": m1.show(c["canon"]), "real_term": str(c["real"])}, c, c["real"]))
@@ -272,7 +349,7 @@ def correspondence(chk: common.Check, rng, n_cases: int, variant=(0, 1)) -> list
             bad.append({**rec, "why": "Lean denotation of the model result != exact value of real result.doit()",
                         "env": {s[1]: str(v) for s, v in c["env"].items()}, "real_value": str(real_val), "model_value": line.strip()})
     chk.count(None, n_eval)
-    stats["cases"] = n_cases
+    stats["cases"] = len(cases)
     stats["cases_with_repeated_index_symbol_(structural_comparison_only)"] = sum(1 for c in cases if c["dup"])
     stats["requests"] = len(lines) - 1 + len(second)
     chk.info("input_distribution", stats)
